@@ -96,6 +96,15 @@ def run(ctx):
         DK = dk[0]
         paths = ctx.paths(DK)
         body = ctx.body(DK)
+        # the field extraction may live in a helper that deserialize() hands the freshly read map to (`ScanIndex::from_vars(&map)`): then the
+        # helper is judged, and deserialize() is only required to produce the map with deserialize_str(KeyValue) and return the helper's result
+        DK0, paths0, body0 = DK, paths, body
+        tails = [strip_refs(p.end[1]) for p in ret_paths(paths) if not is_propagated_err(p.end[1])]
+        if tails and all(is_call(t, ) and fx.fn(t[1]) is not None and len(call_args(t)) == 1 for t in tails) and len({t[1] for t in tails}) == 1 \
+                and all(mentions(call_args(t)[0], lambda s_: is_call(s_, "deserialize_str")) for t in tails):
+            DK = tails[0][1]
+            paths = ctx.paths(DK)
+            body = ctx.body(DK)
         oks = [p for p in ret_paths(paths) if unwrap_ok(p.end[1]) is not None]
         ctx.floor("D1-KEY-FIELD", DK, "Ok paths", len(oks), 1)
         for p in oks:
@@ -218,7 +227,7 @@ def run(ctx):
             ctx.check(seen == {True, False}, "D1-KEY-FIELD", DK, "field=%s:both-outcomes" % f, "both the present and the absent case of the key reach Ok",
                       "field %s: only the %s case of its key reaches an Ok result" % (f, "present" if True in seen else "absent"), fn_span(body), nontrivial=False)
         errprop(ctx, DK, paths, body, rule="D3-ERRPROP", no_effects_after_error=(), floor=3)
-        ms = [e for p in paths for e in p.calls("deserialize_str")]
+        ms = [e for p in paths0 for e in p.calls("deserialize_str")]
         ctx.check(bool(ms), "D1-KEY-FIELD", DK, "map-source", "the map comes from deserialize_str(KeyValue)", "the key/value map is not produced by deserialize_str(KeyValue)", fn_span(body), nontrivial=False)
 
     # ---- D2 from_reader
@@ -328,12 +337,22 @@ def run(ctx):
         ins_seen = skip_seen = False
         for p in backs:
             ins = [e for e in p.events if ev_is(e, "HashMap::insert")]
-            so = [c for c in p.conds() if c.term[0] == "discr" and is_call(strip_refs(c.term[1]), "str>::split_once", "str>::rsplit_once", "str>::splitn", "str>::split")]
+            so = [c for c in p.conds() if c.term[0] == "discr" and is_call(strip_refs(c.term[1]), "str>::split_once", "str>::rsplit_once", "str>::splitn", "str>::split", "str>::find", "str>::rfind")]
             if ins:
                 ins_seen = True
                 k, v = ins[0].args[1], ins[0].args[2]
                 sk, sv = find_split_parts(k), find_split_parts(v)
                 ok = bool(sk) and bool(sv) and sk[0]["sep"] == "=" and occurrence(sk[0]) == "first" and part_role(sk[0]) == "prefix" and part_role(sv[0]) == "suffix" and sk[0]["split"] == sv[0]["split"]
+                if not ok:
+                    # the same cut in any other spelling (find('=') + slicing, split_at ..): both sides on the substr normal form, relative to the line
+                    tk_ = [x for x in subterms(k) if is_call(x, "str>::trim")]
+                    tv_ = [x for x in subterms(v) if is_call(x, "str>::trim")]
+                    ssk = substr(call_args(tk_[0])[0]) if tk_ else None
+                    ssv = substr(call_args(tv_[0])[0]) if tv_ else None
+                    if ssk is not None and ssv is not None and substr_role(ssk) == ("prefix", "find", "=") and substr_role(ssv) == ("suffix", "find", "=") and ssk[0] == ssv[0] \
+                            and mentions(ssk[0], lambda s_: is_call(s_, "str>::lines")):
+                        ok = True
+                        sk = [dict(api="find", sep="=", subject=ssk[0])]
                 ctx.check(ok, "D4-FIRSTSEP", VK, "split", "key/value = before/after the FIRST '='",
                           "KEY=VALUE is split with %s: a value must be everything after the first '='" % (((sk[0]["api"], sk[0]["sep"]) if sk else None),), body.span_of(ins[0].bb))
                 okt = bool(find_calls(k, "str>::trim")) and bool(find_calls(v, "str>::trim"))
